@@ -38,6 +38,8 @@ package kernel
 //@   property C19
 //@   requires RoundOK(c) && s != nil && s.Timestamp < 9223372036854775808 && s.Version == common.SnapshotVersionCommonEncoding
 //@   panics when s.RoundNumber != c.Number || !s.Hash.HasValue()
+//@   trustpre PayloadHash[canonical] -- added for C07: cs.PayloadHash() (error message only) sorts cs.Transactions in place unless they already are in
+//@       -- canonical order; the cached snapshots carry a Hash, i.e. they were hashed (and thereby sorted) or decoded before they were cached
 //@   modifies c.Snapshots, c.Snapshots[..cap]
 //@   ensures [added] result == nil && add ==> RoundOK(c) && len(c.Snapshots) == old(len(c.Snapshots)) + 1 && c.Snapshots[len(c.Snapshots)-1] == s
 //@   ensures [kept] (result != nil || !add) ==> RoundOK(c) && len(c.Snapshots) == old(len(c.Snapshots))
